@@ -114,7 +114,7 @@ Qed.
 Lemma Er_read_octets sz : Er (c_read_octets sz) (read_octets sz).
 Proof.
   unfold c_read_octets, read_octets, c_read_bit, c_read_uint. er.
-  all: first [apply Er_read_len | apply Er_read_frag_auto, Er_read_byte | apply Er_read_n, Er_read_byte].
+  all: first [apply Er_read_frag_auto, Er_read_byte | apply Er_read_n, Er_read_byte].
 Qed.
 
 Lemma Er_km_read_char a ident : Er (c_km_read_char a ident) (km_read_char a ident).
@@ -183,7 +183,7 @@ Section ErComposite.
   Lemma Er_dec_seqof elem sz : Er (c_dec_seqof decT elem sz) (dec_seqof rdT elem sz).
   Proof.
     unfold c_dec_seqof, dec_seqof, c_read_bit, c_read_uint. er.
-    all: first [apply Er_read_len | apply Er_read_frag_auto, HT | apply Er_read_n, HT].
+    all: first [apply Er_read_frag_auto, HT | apply Er_read_n, HT].
   Qed.
 
   Lemma Er_dec_choice_root root : Er (c_dec_choice_root decT root) (dec_choice_root rdT root).
@@ -770,7 +770,7 @@ Qed.
 
 Definition k_array (sz : size) (x : abw) : abw :=
   let normal := if size_unbound sz then k_frag x else k_sized sz x in
-  if size_ext sz then kseq (kprim true) (kalt (k_lenrep x) normal) else normal.
+  if size_ext sz then kseq (kprim true) (kalt (k_frag x) normal) else normal.
 
 Definition c_array {A} (rd : creader A) (g : list A -> creader value) (sz : size) : creader value :=
   let normal :=
@@ -778,7 +778,7 @@ Definition c_array {A} (rd : creader A) (g : list A -> creader value) (sz : size
       else dc* extra <- c_extra sz; dc* vs <- c_read_n (Z.to_nat (size_lo sz + extra)) rd; g vs in
   if size_ext sz then
     dc* b <- c_read_bit;
-    if b then dc* n <- c_read_len; dc* vs <- c_read_n (Z.to_nat n) rd; g vs
+    if b then dc* vs <- c_read_frag_auto rd; g vs
     else normal
   else normal.
 
@@ -794,7 +794,7 @@ Proof.
     - apply Cost_sized; assumption. }
   destruct (size_ext sz); [|exact Hn].
   apply Cost_bind; [apply Cost_read_bit|]. intros b. apply Cost_if; [|exact Hn].
-  apply Cost_lenrep; assumption.
+  eapply Cost_weaken; [apply kle_seq_ret|]. apply Cost_bind; [apply Cost_read_frag_auto, H|exact Hg].
 Qed.
 
 Definition k_bits (sz : size) : abw :=
@@ -1607,7 +1607,7 @@ Section Debt.
 
   Definition d_array (sz : size) (k : dk) : dk :=
     let normal := if size_unbound sz then dseq (d_frag k) dret else d_sized sz k in
-    if size_ext sz then dseq (dconv (kprim true)) (dalt (d_lenrep k) normal) else normal.
+    if size_ext sz then dseq (dconv (kprim true)) (dalt (dseq (d_frag k) dret) normal) else normal.
 
   Lemma Inv_array {A} sz k (rd : creader A) g :
     Inv k rd -> (forall l, Inv dret (g l)) -> Inv (d_array sz k) (c_array rd g sz).
@@ -1621,7 +1621,7 @@ Section Debt.
       - apply Inv_sized; assumption. }
     destruct (size_ext sz); [|exact Hn].
     apply Inv_bind; [apply Inv_conv, Cost_read_bit|]. intros b. apply Inv_if; [|exact Hn].
-    apply Inv_lenrep; assumption.
+    apply Inv_bind; [apply Inv_read_frag_auto, H|exact Hg].
   Qed.
 
   (** composite types, relative to a debt bound [dT] of the nested types *)
